@@ -424,15 +424,15 @@ func c19Concurrent(w *verifrt.World, tier Tier) *RunResult {
 	sc.Writer = pick(t, []string{"Serial", "Concurrent"})
 	cfg := c19GenConfig(t, sc, sc.Writer)
 	sc.Engine = "On"
-	sc.Format = "JSON"
-	// keep the decision trivial here (engine On, JSON): this part is about writers
+	sc.Format = pick(t, []string{"JSON", "JSON", "Native"})
+	// keep the decision trivial here (engine On): this part is about writers and formatters
 	var lines []string
 	for _, l := range cfg.Lines {
 		switch {
 		case strings.HasPrefix(l, "SecAuditEngine "):
 			l = "SecAuditEngine On"
 		case strings.HasPrefix(l, "SecAuditLogFormat "):
-			l = "SecAuditLogFormat JSON"
+			l = "SecAuditLogFormat " + sc.Format
 		}
 		lines = append(lines, l)
 	}
@@ -531,7 +531,7 @@ func c19Concurrent(w *verifrt.World, tier Tier) *RunResult {
 	for _, s := range sc.Scripts {
 		ids = append(ids, s.ID)
 	}
-	auditFilesCheck(res, "C19", sc.Writer, disk, ids, stamps, ctx)
+	auditFilesCheck(res, "C19", sc.Writer, sc.Format, disk, ids, stamps, ctx)
 	return res
 }
 
@@ -539,11 +539,61 @@ func c19Concurrent(w *verifrt.World, tier Tier) *RunResult {
 // simulated disk: whole records, every listed transaction exactly once, index
 // entries of the concurrent writer not interleaved (and, when stamps are given,
 // each file at the path derived from the transaction's timestamp and id).
-func auditFilesCheck(res *RunResult, prop, writer string, disk *simos.FS, ids []string, stamps []int64, ctx string) {
+// nativeRecords walks a text made of native-format records: every record opens
+// with --<boundary>-A--, closes with --<boundary>-Z-- and carries no marker of
+// another boundary in between; the line after the A marker holds the id.
+func nativeRecords(text string) (ids map[string]int, problem string) {
+	ids = map[string]int{}
+	open := ""
+	lines := strings.Split(text, "\n")
+	for i, l := range lines {
+		m := nativeMarker.FindStringSubmatch(l)
+		if m == nil {
+			continue
+		}
+		switch {
+		case m[2] == "A":
+			if open != "" {
+				return ids, fmt.Sprintf("line %d opens a record (%s) inside the record with boundary %s", i, l, open)
+			}
+			open = m[1]
+			if i+1 < len(lines) {
+				hdr := lines[i+1]
+				if j := strings.Index(hdr, "] "); j >= 0 {
+					f := strings.Fields(hdr[j+2:])
+					if len(f) > 0 {
+						ids[f[0]]++
+					}
+				}
+			}
+		case open == "":
+			return ids, fmt.Sprintf("line %d (%s) is a section marker outside any record", i, l)
+		case m[1] != open:
+			return ids, fmt.Sprintf("line %d (%s) carries another record's boundary inside the record with boundary %s", i, l, open)
+		case m[2] == "Z":
+			open = ""
+		}
+	}
+	if open != "" {
+		return ids, fmt.Sprintf("the record with boundary %s is never closed", open)
+	}
+	return ids, ""
+}
+
+func auditFilesCheck(res *RunResult, prop, writer, format string, disk *simos.FS, ids []string, stamps []int64, ctx string) {
+	native := strings.EqualFold(format, "native")
 	switch writer {
 	case "Serial":
 		data, _ := disk.ReadAll(simos.Root + "/audit/audit.log")
 		seen := map[string]int{}
+		if native {
+			var problem string
+			seen, problem = nativeRecords(string(data))
+			if problem != "" {
+				res.fail(prop, "serial-interleaved", "native-sections", "the serial audit log is not a sequence of balanced native records: %s %s\n%s", problem, ctx, clip(string(data), 1500))
+			}
+			data = nil
+		}
 		for li, line := range strings.Split(strings.TrimRight(string(data), "\n"), "\n") {
 			if line == "" && len(data) == 0 {
 				continue
@@ -577,14 +627,26 @@ func auditFilesCheck(res *RunResult, prop, writer string, disk *simos.FS, ids []
 					res.fail(prop, "concurrent-file-missing", "path", "no audit file for transaction %s at the path derived from its timestamp (%s); files: %v %s", id, p, disk.Files(), ctx)
 					break
 				}
-				var doc map[string]any
-				if err := json.Unmarshal(data, &doc); err != nil {
-					res.fail(prop, "concurrent-file-corrupt", "not-json", "audit file %s is not one JSON document: %q %s", p, clip(string(data), 300), ctx)
-					break
-				}
-				if tr, _ := doc["transaction"].(map[string]any); tr == nil || fmt.Sprint(tr["id"]) != id {
-					res.fail(prop, "concurrent-file-corrupt", "wrong-id", "audit file %s carries another transaction's record %s", p, ctx)
-					break
+				if native {
+					got, problem := nativeRecords(string(data))
+					if problem != "" {
+						res.fail(prop, "concurrent-file-corrupt", "native-sections", "audit file %s is not one balanced native record: %s %s\n%s", p, problem, ctx, clip(string(data), 800))
+						break
+					}
+					if len(got) != 1 || got[id] != 1 {
+						res.fail(prop, "concurrent-file-corrupt", "wrong-id", "audit file %s holds records of %v, want exactly one of %s %s", p, got, id, ctx)
+						break
+					}
+				} else {
+					var doc map[string]any
+					if err := json.Unmarshal(data, &doc); err != nil {
+						res.fail(prop, "concurrent-file-corrupt", "not-json", "audit file %s is not one JSON document: %q %s", p, clip(string(data), 300), ctx)
+						break
+					}
+					if tr, _ := doc["transaction"].(map[string]any); tr == nil || fmt.Sprint(tr["id"]) != id {
+						res.fail(prop, "concurrent-file-corrupt", "wrong-id", "audit file %s carries another transaction's record %s", p, ctx)
+						break
+					}
 				}
 			}
 			n := 0
